@@ -33,17 +33,18 @@ VARIABLES
   busy, prep, gated,                                 \* nni_task: task_busy, task_prep, dispatched-and-held-by-gate
   held,                                              \* the external provider still owns the operation
   stopCalled, stopRet, freed,                        \* nng_aio_stop on a helper thread; nng_aio_free
+  stoppedOnce,                                       \* a_stopped: an operation already completed with NNG_ESTOPPED
   submitted, cbCount, intend, faithful, early,       \* ghosts: intended result of the operation in flight; latches
   lastAct
 
 vars == <<stop, abort, abortRv, sleep, xok, cfn, onx, res, exp, now, tmo, busy, prep, gated, held,
-          stopCalled, stopRet, freed, submitted, cbCount, intend, faithful, early, lastAct>>
+          stopCalled, stopRet, freed, stoppedOnce, submitted, cbCount, intend, faithful, early, lastAct>>
 
 Init ==
   /\ stop = FALSE /\ abort = FALSE /\ abortRv = "ok" /\ sleep = FALSE /\ xok = FALSE /\ cfn = FALSE /\ onx = FALSE
   /\ res = "ok" /\ exp = Never /\ now = 10 /\ tmo = Inf
   /\ busy = 0 /\ prep = FALSE /\ gated = 0 /\ held = FALSE
-  /\ stopCalled = FALSE /\ stopRet = FALSE /\ freed = FALSE
+  /\ stopCalled = FALSE /\ stopRet = FALSE /\ freed = FALSE /\ stoppedOnce = FALSE
   /\ submitted = 0 /\ cbCount = 0 /\ intend = "none" /\ faithful = TRUE /\ early = FALSE
   /\ lastAct = [a |-> "init"]
 
@@ -52,13 +53,14 @@ Init ==
 \* contain several critical sections (abort -> cancel function -> finish -> dispatch).
 S0 == [stop |-> stop, abort |-> abort, abortRv |-> abortRv, sleep |-> sleep, xok |-> xok, cfn |-> cfn, onx |-> onx,
        res |-> res, exp |-> exp, now |-> now, tmo |-> tmo, busy |-> busy, prep |-> prep, gated |-> gated, held |-> held,
-       stopCalled |-> stopCalled, stopRet |-> stopRet, freed |-> freed,
+       stopCalled |-> stopCalled, stopRet |-> stopRet, freed |-> freed, stoppedOnce |-> stoppedOnce,
        submitted |-> submitted, cbCount |-> cbCount, intend |-> intend, faithful |-> faithful, early |-> early]
 Commit(S0_, a) ==
   LET S == [S0_ EXCEPT !.stopRet = S0_.stopRet \/ (S0_.stopCalled /\ S0_.busy = 0)] IN   \* nni_aio_wait in stop returns
   /\ stop' = S.stop /\ abort' = S.abort /\ abortRv' = S.abortRv /\ sleep' = S.sleep /\ xok' = S.xok /\ cfn' = S.cfn
   /\ onx' = S.onx /\ res' = S.res /\ exp' = S.exp /\ now' = S.now /\ tmo' = S.tmo /\ busy' = S.busy /\ prep' = S.prep
   /\ gated' = S.gated /\ held' = S.held /\ stopCalled' = S.stopCalled /\ stopRet' = S.stopRet /\ freed' = S.freed
+  /\ stoppedOnce' = S.stoppedOnce
   /\ submitted' = S.submitted /\ cbCount' = S.cbCount /\ intend' = S.intend /\ faithful' = S.faithful /\ early' = S.early
   /\ lastAct' = a
 
@@ -81,7 +83,7 @@ Start(S1) ==
       tz == S.tmo = Zero
       e  == IF S.tmo \in {Inf, Zero} THEN Never ELSE S.now + S.tmo
       T  == [S EXCEPT !.exp = IF tz THEN S.exp ELSE e, !.xok = FALSE]
-  IN IF T.stop THEN [r |-> "stopped", S |-> Dispatch(Intend([T EXCEPT !.res = "stopped", !.sleep = FALSE], "stopped"))]
+  IN IF T.stop THEN [r |-> "stopped", S |-> Dispatch(Intend([T EXCEPT !.res = "stopped", !.sleep = FALSE, !.stoppedOnce = TRUE], "stopped"))]
      ELSE IF T.abort THEN
           LET rv == IF FixedAbort THEN T.abortRv ELSE T.res IN
           [r |-> "aborted", S |-> Dispatch(Intend([T EXCEPT !.abort = FALSE, !.sleep = FALSE, !.res = rv], rv))]
@@ -89,7 +91,9 @@ Start(S1) ==
      ELSE [r |-> "ok", S |-> [T EXCEPT !.res = "ok", !.cfn = TRUE, !.onx = (T.exp # Never), !.held = TRUE]]
 
 Idle(S) == ~S.held /\ ~S.sleep /\ S.gated = 0 /\ S.busy = 0
-CanSubmit == submitted < MaxOps /\ Idle(S0) /\ ~freed
+\* (submitting again on an aio that has already reported NNG_ESTOPPED is a caller bug by the code's own
+\*  contract: debug builds assert !a_stopped in nni_aio_start; the harness respects that precondition)
+CanSubmit == submitted < MaxOps /\ Idle(S0) /\ ~freed /\ ~stoppedOnce
 
 \* consumer: nng_aio_set_timeout
 SetTimeout(t) == /\ CanSubmit /\ t # tmo
@@ -110,7 +114,7 @@ Sleep(ms) ==
          S1 == [R EXCEPT !.xok = ~(short \/ zero), !.sleep = TRUE, !.exp = R.now + d,
                          !.busy = R.busy + 1, !.prep = TRUE, !.submitted = R.submitted + 1]
      IN IF S1.stop
-          THEN Commit(Dispatch(Intend([S1 EXCEPT !.res = "stopped", !.sleep = FALSE, !.xok = FALSE], "stopped")),
+          THEN Commit(Dispatch(Intend([S1 EXCEPT !.res = "stopped", !.sleep = FALSE, !.xok = FALSE, !.stoppedOnce = TRUE], "stopped")),
                       [a |-> "sleep", ms |-> ms, out |-> [started |-> "no"]])
           ELSE Commit([S1 EXCEPT !.res = "ok", !.cfn = TRUE, !.onx = TRUE],
                       [a |-> "sleep", ms |-> ms, out |-> [started |-> "ok"]])
@@ -144,7 +148,7 @@ Tick(d, honor) ==
 \* result and may submit the next operation on the same aio before it returns
 RunCb(resub) ==
   /\ gated > 0
-  /\ (resub => submitted < MaxOps /\ ~held /\ ~sleep /\ gated = 1)
+  /\ (resub => submitted < MaxOps /\ ~held /\ ~sleep /\ gated = 1 /\ ~stoppedOnce)
   /\ LET S1 == [S0 EXCEPT !.gated = S0.gated - 1, !.cbCount = S0.cbCount + 1,
                            !.faithful = S0.faithful /\ (S0.res = S0.intend), !.intend = "none"]
          st == Start(S1)
@@ -194,7 +198,7 @@ BusyExact == busy = (IF held \/ sleep THEN 1 ELSE 0) + gated
 
 \* ---------------------------------------------------------------- export
 SId == <<stop, abort, abortRv, sleep, xok, cfn, onx, res, exp, now, tmo, busy, prep, gated, held,
-         stopCalled, stopRet, freed, submitted, cbCount, intend, faithful, early>>
+         stopCalled, stopRet, freed, stoppedOnce, submitted, cbCount, intend, faithful, early>>
 Obs == [cbs |-> cbCount, gated |-> gated, busy |-> (busy > 0), stopret |-> stopRet]
 Fin == 0
 ExportEdge == PrintT(<<"E", ToJson([s |-> SId, sa |-> lastAct, d |-> SId', act |-> lastAct', obs |-> Obs', fin |-> Fin'])>>)
